@@ -28,6 +28,7 @@ type Options struct {
 	Verbose       int
 	SolverBin     []string
 	StopAtFirst   bool
+	GraceAfterFinding time.Duration // stop exploring this long after the first finding that is not a listed one (0: never)
 	Params        map[string]int
 	Known         map[string][]string // obligation label -> known-finding class labels
 	DumpDir       string
@@ -91,6 +92,7 @@ type Result struct {
 	Assumed     map[string]int
 	Params      map[string]int
 	SolverErrors []string
+	StoppedEarly string // set when the exploration was cut short after a counterexample (Options.GraceAfterFinding)
 }
 
 type Engine struct {
